@@ -1875,6 +1875,14 @@ def validate_topology_heap(rng, n_cases, res):
                 reqs.append({"fn": "check_branching", "args": [heap, ix[id(out)]]})
                 expect.append(("check_branching", real(sched._check_branching, c, out)))
         listed = list(composition._components)
+        for fn, real_fn in (("map_inputs", sched._map_inputs), ("map_outputs", sched._map_outputs)):
+            if common.TRANSLATION_STATUS.get(fn, {}).get("translated"):
+                try:   # the table as the list of its items, in insertion order
+                    want_tab = {"ok": [[ix[id(k)], ix[id(v)]] for k, v in real_fn(listed).items()]}
+                except Exception as e:  # noqa
+                    want_tab = {"err": err_class(e)}
+                reqs.append({"fn": fn, "args": [heap, [ix[id(c)] for c in listed]]})
+                expect.append((fn, want_tab))
         if (all(x[1] == {"ok": None} for x in expect if x[0] == "check_input_connected")
                 and all(common.TRANSLATION_STATUS.get(f, {}).get("translated") for f in ("collect_inputs_outputs", "check_missing_components"))):
             # `_validate_composition` reaches `_check_missing_components` only when every input is connected
@@ -1917,7 +1925,7 @@ def validate_topology_heap(rng, n_cases, res):
             continue
         for (fn, want), got in zip(expect, _trdriver(reqs)):
             stats[fn] = stats.get(fn, 0) + 1
-            if fn == "metadata_links":
+            if fn in ("metadata_links", "map_inputs", "map_outputs"):
                 if got != want:
                     stats["mismatch"] += 1
                     res.diverge("translation/" + fn, {"case": case, "fn": fn}, want, got)
